@@ -20,10 +20,11 @@ PROPS = {
     "C06": [(hs_server, ["C06_"]), (hs_client, ["C06_"]), (chan.C06, ["C06_"])],
     "C08": [(hs_client, ["C08_"]), (clientlife, ["C08_Client"])],
     "C01": [(codec.C01, ["C01_", "X_Harness"])],
-    "C02": [(codec.C02, ["C02_", "X_Harness"])],
+    "C02": [(codec.C02, ["C02_", "X_Harness"]), (clientlife, ["C02_SrvSurvives", "C08_ClientNoPanic"])],
     "C11": [(codec.C11, ["C11_", "X_Harness"]), (clientlife, ["C11_PingReply"])],
     "C04": [(chan.C04, ["C04_", "C13_NoCrash"]), (transport, ["C04_Transport"]),
-            (tcp_stream.C12, ["C12_WireClean", "C12_StreamIntegrity", "C12_NoSilentLoss", "C12_NoPanic"])],
+            (tcp_stream.C12, ["C12_WireClean", "C12_StreamIntegrity", "C12_NoSilentLoss", "C12_NoPanic"]),
+            (clientlife, ["C04_SrvOwnHandler"])],
     "C05": [(pending, ["C05_"])],
     "C13": [(chan.C13, ["C13_"]), (transport, ["C13_Transport"]), (clientlife, ["C13_ClientReleases"])],
     "C12": [(tcp_stream.C12, ["C12_"])],
